@@ -4,7 +4,8 @@ kinds (driver lines {"t":"ref","kind":K,"a":[decimal strings],"got":G}):
   tsig.shash    a = [x_1, .., x_k]          got = tmcg_mpz_shash(k, x_1..x_k) as decimal
   tsig.schnorr  a = [p,q,g,y,m,c,s]         got = "1"/"0": verdict that the textbook Schnorr equation must give
   tsig.dsa      a = [p,q,g,y,m,r,s]         got = "1"/"0": verdict of textbook DSA with range checks
-  *.outcast     same functions under a separate name (cases with a key-generation outcast; separate finding key)
+  tsig.schnorr.<class> / tsig.dsa.<class>   the same functions under the name of the deviation class of the case
+                (builtin, silent, tamper-bcast, tamper-ucast, outcast), so that a finding key pyref/<kind> is specific
 
 tmcg_g / tmcg_mpz_shash are re-implemented from the description of the construction in src/mpz_shash.cc:
   g(x) with 32 output bytes: two work buffers (SHA-256 and SHA3-256), four rounds i = 0..3; round i hashes
@@ -91,6 +92,7 @@ KINDS = {
     'tsig.shash': k_shash,
     'tsig.schnorr': _verdict(schnorr_valid, 'Schnorr'),
     'tsig.dsa': _verdict(dsa_valid, 'DSA'),
-    'tsig.schnorr.outcast': _verdict(schnorr_valid, 'Schnorr'),
-    'tsig.dsa.outcast': _verdict(dsa_valid, 'DSA'),
 }
+for _c in ('builtin', 'silent', 'tamper-bcast', 'tamper-ucast', 'outcast'):
+    KINDS['tsig.schnorr.' + _c] = KINDS['tsig.schnorr']
+    KINDS['tsig.dsa.' + _c] = KINDS['tsig.dsa']
